@@ -18,9 +18,18 @@ THREADINGS = {
 }
 
 
+# ScopedRemover's other specialisation: target = EventDispatcher / EventQueue (harness/seq_rem.cpp)
+REM_TARGETS = {"remdisp": (1, "checked"), "remqueue": (2, "multi"), "remqueue_spin": (2, "spin")}
+
+
 def harness_jobs(variants=("single", "multi"), std="c++17", cxx="g++", opt="-O1", tag=""):
     jobs = []
     for v in variants:
+        if v in REM_TARGETS:
+            tgt, thr = REM_TARGETS[v]
+            jobs.append(dict(src="seq_rem.cpp", out_name="seq_rem_%s%s" % (v, tag), std=std, cxx=cxx, opt=opt,
+                             defines=["VR_TARGET=%d" % tgt, "VH_THREADING=" + THREADINGS[thr]]))
+            continue
         jobs.append(dict(src="seq_cl.cpp", out_name="seq_cl_%s%s" % (v, tag), std=std, cxx=cxx, opt=opt,
                          defines=["VH_THREADING=" + THREADINGS[v]]))
     return jobs
